@@ -138,8 +138,13 @@ class InterpMonitor:
                 # the point is stored as x_base + xpt: its displacement from
                 # the base is only known to eps*|x_base| (tiny sets far from
                 # the origin), which the model amplifies by its gradient
-                gsens = float(np.abs(q.grad(p, itp)) @ (
-                    4 * EPS * np.maximum(np.abs(itp.x_base), np.abs(p))))
+                dx = 4 * EPS * np.maximum(np.abs(itp.x_base), np.abs(p))
+                gsens = float(np.abs(q.grad(p, itp)) @ dx)
+                # ... and, on sets that have collapsed to the resolution of
+                # x_base (x_base + xpt == x_base), by its curvature
+                habs = np.abs(q._e_hess) + (np.abs(itp.xpt) * np.abs(
+                    q._i_hess)) @ np.abs(itp.xpt).T
+                gsens += float(dx @ habs @ dx)
                 b = C * (self.tol.get(name, np.inf)
                          + 8 * EPS * mag(q, itp, p) + gsens)
                 if not np.isfinite(b) or b > MEANINGLESS * vs:
